@@ -278,9 +278,10 @@ func (u *c05Up) bgFetchesSince(n int) (started int) {
 }
 
 type c05Obs struct {
-	Hit  bool
-	Resp *dns.Msg
-	Err  error
+	Hit   bool
+	Resp  *dns.Msg
+	UpOpt *dns.OPT // OPT that the query context took out of the response it was given
+	Err   error
 }
 
 func c05Query(c *Cache, u *c05Up, id uint16) c05Obs {
@@ -291,7 +292,7 @@ func c05Query(c *Cache, u *c05Up, id uint16) c05Obs {
 	n := len(u.calls)
 	w := sequence.NewChainWalker([]*sequence.ChainNode{{E: u}}, nil)
 	err := c.Exec(context.Background(), qCtx, w)
-	o := c05Obs{Err: err, Resp: qCtx.R()}
+	o := c05Obs{Err: err, Resp: qCtx.R(), UpOpt: qCtx.UpstreamOpt()}
 	for _, cl := range u.calls[n:] {
 		if !cl.Bg {
 			o.Hit = cl.HadResp
@@ -485,6 +486,10 @@ func c05RunPoint(in c05PointIn, verbose bool) c05Verdict {
 	}
 	if obs.Resp == nil {
 		v.Sig, v.Desc = "hit-without-response/"+cls, show()
+		return v
+	}
+	if obs.UpOpt != nil && obs.UpOpt.Hdr.Ttl != c05OptTTL {
+		v.Sig, v.Desc = "opt-aged/"+cls, fmt.Sprintf("the cached answer carried an OPT pseudo-record whose flags field changed from %#x to %#x (TTL arithmetic applied to OPT); %s", c05OptTTL, obs.UpOpt.Hdr.Ttl, show())
 		return v
 	}
 	age := ""
